@@ -11,11 +11,14 @@ Open Scope list_scope.
    start-up path (context initialisation, router, CGF when enabled, rating and account-balance
    servers, SBI server under http and https) and of the first charging request without meeting a
    nil pointer, and registers no route twice. *)
+Lemma facts_gen : tables_facts tables_gen = true.
+Proof. vm_compute. reflexivity. Qed.
+
 Theorem C20_sound : forall str_ok int_ok mongo_ok cfg,
   shaped tables_gen 8 "Config" cfg = true ->
   rejected str_ok int_ok tables_gen cfg = false ->
   run_steps mongo_ok cfg (startup ++ first_request) = Ok tt.
-Proof. exact startup_sound. Qed.
+Proof. intros. apply (startup_sound str_ok int_ok mongo_ok tables_gen cfg); [assumption|exact facts_gen|assumption]. Qed.
 Print Assumptions C20_sound.
 
 (* A mandatory section that is absent is refused: info, configuration, logger, sbi, mongodb,
@@ -32,9 +35,9 @@ Theorem C20_rejects_missing_section : forall str_ok int_ok cfg p q,
   In (p, q) mandatory -> get cfg p = Ok CNil ->
   rejected str_ok int_ok tables_gen cfg = true.
 Proof.
-  intros str_ok int_ok cfg p q Hs Hin Hnil. apply (missing_rejected str_ok int_ok cfg Hs p q); [|exact Hnil].
+  intros str_ok int_ok cfg p q Hs Hin Hnil. apply (missing_rejected str_ok int_ok tables_gen cfg Hs p q); [|exact Hnil].
   cbn [mandatory In] in Hin.
-  repeat (destruct Hin as [Hin|Hin]; [inversion Hin; subst; reflexivity|]). contradiction.
+  repeat (destruct Hin as [Hin|Hin]; [inversion Hin; subst; vm_compute; reflexivity|]). contradiction.
 Qed.
 Print Assumptions C20_rejects_missing_section.
 
@@ -45,7 +48,7 @@ Theorem C20_rejects_scheme : forall str_ok int_ok cfg s cs ss,
   rejected str_ok int_ok tables_gen cfg = true.
 Proof.
   intros str_ok int_ok cfg s cs ss Hc Hs Hsch H1 H2.
-  apply (bad_scheme_rejected str_ok int_ok cfg s); unfold sbi, conf; rewrite ?Hc, ?Hs; eauto.
+  apply (bad_scheme_rejected str_ok int_ok tables_gen cfg facts_gen s); unfold sbi, conf; rewrite ?Hc, ?Hs; eauto.
 Qed.
 Print Assumptions C20_rejects_scheme.
 
@@ -57,7 +60,7 @@ Theorem C20_rejects_service : forall str_ok int_ok cfg cs x,
   rejected str_ok int_ok tables_gen cfg = true.
 Proof.
   intros str_ok int_ok cfg cs x Hc Hin Hk.
-  apply (unknown_service_rejected str_ok int_ok cfg x); unfold conf; rewrite ?Hc; eauto.
+  apply (unknown_service_rejected str_ok int_ok tables_gen cfg x); unfold conf; rewrite ?Hc; eauto.
 Qed.
 Print Assumptions C20_rejects_service.
 
@@ -67,7 +70,7 @@ Theorem C20_rejects_duplicate_service : forall str_ok int_ok cfg cs,
   rejected str_ok int_ok tables_gen cfg = true.
 Proof.
   intros str_ok int_ok cfg cs Hc Hd.
-  apply (duplicate_service_rejected str_ok int_ok cfg); unfold conf; rewrite ?Hc; eauto.
+  apply (duplicate_service_rejected str_ok int_ok tables_gen cfg); unfold conf; rewrite ?Hc; eauto.
 Qed.
 Print Assumptions C20_rejects_duplicate_service.
 
